@@ -115,21 +115,24 @@ theorem readSegs_mono' (cd : Codec) (h : Hdr) (k : Nat) : ∀ (f : Nat) (nb : Bo
   | succ k ih => intro f nb ts r hr; exact readSegs_mono cd h (f + k) nb ts r (ih f nb ts r hr)
 
 /-- `Reads n nb nb' toks evs`: the segment loop, started with `read_bounds = nb` in front of `toks ++ rest`, delivers
-    `evs`, leaves `read_bounds = nb'` and continues with `rest`, using `n` units of fuel. -/
-def Reads (cd : Codec) (h : Hdr) (n : Nat) (nb nb' : Bool) (toks : List Tok) (evs : List Ev) : Prop :=
+    `evs`, leaves `read_bounds = nb'` and continues with `rest`; the fuel it needs beyond what `rest` needs is at most
+    the number of tokens consumed.  (`n` is only a label: the number of segments.) -/
+def Reads (cd : Codec) (h : Hdr) (_n : Nat) (nb nb' : Bool) (toks : List Tok) (evs : List Ev) : Prop :=
   ∀ (f : Nat) (rest : List Tok) (r : List Ev),
-    readSegs cd h f nb' rest = .ok r → readSegs cd h (f + n) nb (toks ++ rest) = .ok (evs ++ r)
+    readSegs cd h f nb' rest = .ok r →
+      ∃ g, g ≤ f + toks.length ∧ readSegs cd h g nb (toks ++ rest) = .ok (evs ++ r)
 
 theorem Reads.nil (cd : Codec) (h : Hdr) (nb : Bool) : Reads cd h 0 nb nb [] [] := by
-  intro f rest r hr; simpa using hr
+  intro f rest r hr; exact ⟨f, by simp, by simpa using hr⟩
 
 theorem Reads.append {cd : Codec} {h : Hdr} {n1 n2 : Nat} {b1 b2 b3 : Bool} {t1 t2 : List Tok} {e1 e2 : List Ev}
     (h1 : Reads cd h n1 b1 b2 t1 e1) (h2 : Reads cd h n2 b2 b3 t2 e2) :
     Reads cd h (n2 + n1) b1 b3 (t1 ++ t2) (e1 ++ e2) := by
   intro f rest r hr
-  have a := h2 f rest r hr
-  have b := h1 (f + n2) (t2 ++ rest) (e2 ++ r) a
-  simpa [List.append_assoc, Nat.add_assoc] using b
+  obtain ⟨g2, hg2, a⟩ := h2 f rest r hr
+  obtain ⟨g1, hg1, b⟩ := h1 g2 (t2 ++ rest) (e2 ++ r) a
+  refine ⟨g1, by simp; omega, ?_⟩
+  simpa [List.append_assoc] using b
 
 /-- a single segment other than `b` -/
 theorem Reads.seg {cd : Codec} {h : Hdr} {t : Tag} (ht : t ≠ .segb) {body : List Tok} {l : List Ev}
@@ -137,14 +140,11 @@ theorem Reads.seg {cd : Codec} {h : Hdr} {t : Tag} (ht : t ≠ .segb) {body : Li
     Reads cd h 1 nb nb (.ch t :: body) l := by
   intro f rest r hr
   have := readSegs_step cd h ht (hs rest) f nb
+  refine ⟨f + 1, by simp, ?_⟩
   simp only [List.cons_append]
   rw [this, hr]
 
 theorem Reads.weaken {cd : Codec} {h : Hdr} {n : Nat} {b1 b2 : Bool} {t : List Tok} {e : List Ev} (k : Nat)
-    (h1 : Reads cd h n b1 b2 t e) : Reads cd h (n + k) b1 b2 t e := by
-  intro f rest r hr
-  have := h1 f rest r hr
-  have := readSegs_mono' cd h k _ _ _ _ this
-  simpa [Nat.add_assoc] using this
+    (h1 : Reads cd h n b1 b2 t e) : Reads cd h (n + k) b1 b2 t e := h1
 
 end MpVerif.C03
